@@ -33,7 +33,7 @@ func (impl Implementation) Dgtsv(n, nrhs int, dl, d, du []float64, b []float64, 
 		panic(badLdB)
 	}
 
-	if n == 0 || nrhs == 0 {
+	if n == 0 {
 		return true
 	}
 
@@ -44,7 +44,7 @@ func (impl Implementation) Dgtsv(n, nrhs int, dl, d, du []float64, b []float64, 
 		panic(shortD)
 	case len(du) < n-1:
 		panic(shortDU)
-	case len(b) < (n-1)*ldb+nrhs:
+	case nrhs > 0 && len(b) < (n-1)*ldb+nrhs:
 		panic(shortB)
 	}
 
